@@ -73,7 +73,13 @@ def setup(J):
                 nj["delay"] = 0
                 nj["budget"] = 60
                 jobs.append(nj)
+                if nj["args"].get("mixed"):
+                    # the skip decision walks the task's out-IPs in map order: the other order too
+                    mj = copy.deepcopy(nj)
+                    mj["id"] += "-mo1"
+                    mj["force_all"] = 1
+                    jobs.append(mj)
             return jobs
         return {"level": "model_checking", "stages": [stage1, stage2],
-                "rule": "real mkfifo + real bash producer/consumer under the controlled scheduler (exec seam in async mode: child exits are observed only when no controlled thread can run, so the set of exited children is a function of the state): n in {1,2} streamed items, maxConcurrentTasks in {2n, 2n+1}, payload in {0, 1, 4096, 65537, 300000} bytes, all schedules with <= 1 delay (smallest scenario: <= 3 delays within the budget); then the history 'run again in place'; + a stale regular file at the streaming path / at the FIFO path before the run + a pass-through process noting the order of 2 streamed items + the streaming output declared with an absolute path in a new directory + a consumer with a second ordinary in-port (both orders of its in-port map); oracle: consumer bytes = payload, streamed items leave the producer in arrival order, a stale file is left untouched, no regular file at the streaming path, no FIFO / temp dir left, consumer audit names the producer upstream, second run terminates (no child stuck on a FIFO, judged from /proc/<pid>/stack) and leaves the consumer's output untouched",
+                "rule": "real mkfifo + real bash producer/consumer under the controlled scheduler (exec seam in async mode: child exits are observed only when no controlled thread can run, so the set of exited children is a function of the state): n in {1,2} streamed items, maxConcurrentTasks in {2n, 2n+1}, payload in {0, 1, 4096, 65537, 300000} bytes, all schedules with <= 1 delay (smallest scenario: <= 3 delays within the budget); then the history 'run again in place' (producers with a streaming AND an ordinary output: under both orders of the out-IP map); + a stale regular file at the streaming path / at the FIFO path before the run + a pass-through process noting the order of 2 streamed items + the streaming output declared with an absolute path in a new directory + a consumer with a second ordinary in-port (both orders of its in-port map); oracle: consumer bytes = payload, streamed items leave the producer in arrival order, a stale file is left untouched, no regular file at the streaming path, no FIFO / temp dir left, consumer audit names the producer upstream, second run terminates (no child stuck on a FIFO, judged from /proc/<pid>/stack) and leaves the consumer's output untouched",
                 "assumptions": ["what happens inside the kernel pipe and the two bash processes is observed, not scheduled", "a child is declared stuck when every process of its tree sleeps in fifo_open/pipe_read/pipe_write/do_wait unchanged over 4 samples (cap 20 s)", "delay-bounded (k=1), not closed"]}
